@@ -68,3 +68,40 @@ register('C15', 'proof',
                       'displayed state of a process = forced state if any, else synthetic state (proved by C11)',
                       'handlers are atomic (single Supervisor thread)'],
          extra='pyvc.structural_c15')
+register('C17', 'proof',
+         'The FSM state is a symbolic member of SupvisorsStates, so every contract is proved for the nine states at once. '
+         'Proved on the real source of RPCInterface: _check_state and its four wrappers return normally iff the state is '
+         'allowed, else raise RPCError(BAD_SUPVISORS_STATE) modifying nothing; _get_application / _get_process / '
+         '_get_application_process raise BAD_NAME exactly for unknown names; _get_strategy (run per parameter type: str, '
+         'int, bool, float, list, and per enumeration) returns the member designated by name or value and raises '
+         'INCORRECT_PARAMETERS otherwise. Per command (start/test_start/stop/restart application and process, '
+         'start_any_process, update_numprocs, enable, conciliate, restart_sequence, restart, shutdown, end_sync, and the '
+         'status query get_application_info): served '
+         'only in the documented states with valid parameters; BAD_SUPVISORS_STATE iff the state is not allowed; each '
+         'rejection code only for its documented cause; every rejected request (BAD_SUPVISORS_STATE, BAD_NAME, '
+         'INCORRECT_PARAMETERS, NOT_MANAGED) leaves the ghost effect log empty (no starter / stopper / fsm / rpc_handler / '
+         'supervisor_updater / conciliation call) and writes no pre-existing heap location; every escaping exception is an '
+         'RPCError, through the real code of fsm.on_restart / on_shutdown / on_end_sync. The method x gate table of the '
+         'statement is checked structurally on all 24 gated RPCs (first effective statement = the documented gate).',
+         not_decided=['"on instances brought to that state by a real history": the proof covers all states satisfying the '
+                      'structural validity, reachability of a given (state, Master) combination is not established',
+                      'disable: only its gate (structural check + proved _check_operating); its body (list comprehension '
+                      'around a raising call, filter()) is outside the engine subset',
+                      'status queries other than get_application_info: gate only (structural check + proved '
+                      '_check_from_distribution); their list comprehensions around serial() are outside the engine subset',
+                      'update_numprocs post-checks (_check_process_insertion, _check_process_deletion, _decrease_numprocs) '
+                      'are taken by assumed contracts (raise only RPCError FAILED / STILL_RUNNING)',
+                      'the deferred onwait closures are returned as opaque function values; they are not verified '
+                      '(they run later, outside the request that was gated)',
+                      'start_args is not state-gated by design (used internally in DISTRIBUTION) and not under contract',
+                      'non-bool `wait` / non-str names, non-int numprocs (XML-RPC can carry any marshallable type)'],
+         assumptions=['Starter / Stopper / StarterModel entry points, conciliate_conflicts, supervisor_updater.*, '
+                      'fsm.set_state / fsm.next, state_modes.select_master / publish_status do not raise (their '
+                      'exception-safety is C16; DESIGN A23 is a known counter-example for Starter.start_application); only '
+                      'their effect name is logged',
+                      'structural validity: one Supvisors structure shared by the components, the local identifier is '
+                      'non-empty and has its StateModes entry, dom(mapper.instances) within dom(context.instances), '
+                      'ApplicationStatus.rules is set, no application without process stays in the Context',
+                      'supervisor.options.split_namespec is a deterministic function of the namespec',
+                      'handlers are atomic (single Supervisor thread)'],
+         extra='pyvc.structural_c17')
